@@ -763,7 +763,17 @@ def check_bloom_formula(rep, fl, rule="R14.6"):
         return
     e = norm(return_expr(b)) if return_expr(b) is not None else ("unknown",)
     f = agg_fields(e) if e[0] == "agg" else {}
-    n, p_ = V(b.local_name.get(1, "num_entries")), V(b.local_name.get(2, "wrongs"))
+    # the two parameters are told apart by type: the integer is n, the float is p
+    n = p_ = None
+    for i_ in range(1, b.arg_count + 1):
+        ty_ = b.locals[i_]["ty"]
+        if ty_ in ("usize", "u64", "u32") and n is None:
+            n = V(b.local_name.get(i_, "arg%d" % i_))
+        elif ty_ in ("f64", "f32") and p_ is None:
+            p_ = V(b.local_name.get(i_, "arg%d" % i_))
+    if n is None or p_ is None:
+        rep.missing(rule, fl, "calc_size_by_wrong_positives: an integer and a float parameter")
+        return
 
     def unwrap(x, ceil=False):
         x = norm(x)
